@@ -386,7 +386,7 @@ Section Theorems.
     assert (Hc0 : g_consumed g = 0).
     { destruct (ingress_cases cx s ip r s' rep tags Hi) as [(-> & _) | Hp].
       - exfalso. destruct Hsy as (_ & _ & _ & _ & Hst). unfold st_ok in Hst. rewrite El in Hst. exact Hst.
-      - destruct (process_synced _ _ _ _ _ _ _ _ _ _ _ _ Hsy Hseg Hp) as (_ & [Hs' | (_ & _ & _ & Hc)] & _).
+      - destruct (process_synced _ _ _ _ _ _ _ _ _ _ _ _ Hsy Hseg Hp) as (_ & [Hs' | (_ & _ & _ & Hc & _)] & _).
         + exfalso. destruct Hs' as (_ & _ & _ & _ & Hst). unfold st_ok in Hst. rewrite El in Hst. exact Hst.
         + exact Hc. }
     split; [exact Hc0|]. apply l_len_zero_nil. rewrite Hdl. exact Hc0.
@@ -433,7 +433,7 @@ Section Theorems.
       destruct (ingress_cases cx s ip r s' rep tags Hi) as [(-> & _) | Hp]; [left; exact Hf|].
       unfold TcpRecvTrace.ginv in Hinv. destruct (g_irs g) as [irs|].
       + destruct Hinv as (Hsy & _).
-        destruct (process_synced _ _ _ _ _ _ _ _ _ _ _ _ Hsy Hseg Hp) as (_ & _ & _ & Hfin).
+        destruct (process_synced _ _ _ _ _ _ _ _ _ _ _ _ Hsy Hseg Hp) as (_ & _ & _ & Hfin & _).
         destruct (Hfin Hf) as [Hl | Hr]; [left; exact Hl | right; exists ip, r; split; [reflexivity | exact Hr]].
       + destruct Hinv as (Hu & _).
         destruct (process_unsynced (S 0%nat) (F 0%nat) (F_nonneg _) s cx ip r s' rep tags Hu Hsq Hp)
@@ -443,5 +443,77 @@ Section Theorems.
         as [(_ & -> & _) | (_ & (_ & _ & E & _) & _)].
       + exfalso. exact (Hun _ (reset_unsynced s Hwf Hcap) Hf).
       + left. congruence.
+  Qed.
+  (* the pre-state of an un-synchronising segment: nothing received yet *)
+  Lemma segment_unsync_pre cx g s ip r s' out tags :
+    ginv g s -> ev_ok g s (EvSegment ip r) -> tcp_step cx s (EvSegment ip r) = Ok (s', out, tags) ->
+    g_irs g <> None -> g_irs (ghost_step cx g s (EvSegment ip r) s' out) = None ->
+    rcv_count g s = 0 /\ s_rx_fin_received s = false.
+  Proof.
+    intros Hinv (Hsq & Hseg) Hs Hg Hn. cbn [ghost_step] in Hn.
+    unfold TcpRecvTrace.ginv in Hinv. destruct (g_irs g) as [irs|] eqn:Eg; [|congruence].
+    destruct Hinv as (Hsy & _).
+    destruct (is_state s' Listen) eqn:El; [|cbn [g_irs] in Hn; discriminate].
+    apply is_state_true in El.
+    cbn [tcp_step] in Hs. apply obind_ok_inv in Hs. destruct Hs as (((s1 & rep) & tg) & Hi & Hs).
+    inversion Hs; subst; clear Hs.
+    destruct (ingress_cases cx s ip r s' rep tags Hi) as [(-> & _) | Hp].
+    - exfalso. destruct Hsy as (_ & _ & _ & _ & Hst). unfold st_ok in Hst. rewrite El in Hst. exact Hst.
+    - destruct (process_synced _ _ _ _ _ _ _ _ _ _ _ _ Hsy Hseg Hp) as (_ & [Hs' | (_ & _ & _ & Hc & Hl & Hf)] & _).
+      + exfalso. destruct Hs' as (_ & _ & _ & _ & Hst). unfold st_ok in Hst. rewrite El in Hst. exact Hst.
+      + unfold rcv_count. split; [lia | exact Hf].
+  Qed.
+
+  (* RCV.NXT (as a sequence offset) never decreases while the connection stays synchronised *)
+  Lemma rcv_nxt_mono cx g s ev s' out tags :
+    ginv g s -> ev_ok g s ev -> tcp_step cx s ev = Ok (s', out, tags) ->
+    g_irs g <> None -> g_irs (ghost_step cx g s ev s' out) <> None ->
+    rcv_count g s + b2z (s_rx_fin_received s)
+    <= rcv_count (ghost_step cx g s ev s' out) s' + b2z (s_rx_fin_received s').
+  Proof.
+    intros Hinv Hev H Hg Hg'. destruct (ginv_wf S F _ _ Hinv) as (Hwf & Hcap & Hsh).
+    unfold rcv_count.
+    assert (Hv : forall s0, rxv_eq s0 s ->
+              g_consumed g + rb_len (s_rx_buffer s) + b2z (s_rx_fin_received s)
+              <= g_consumed g + rb_len (s_rx_buffer s0) + b2z (s_rx_fin_received s0)).
+    { intros s0 (_ & E2 & E3 & _). rewrite E2, E3. lia. }
+    destruct ev; cbn [tcp_step] in H.
+    - destruct (tcp_listen s ep) as [s1|e|] eqn:Hl; [| |discriminate]; inversion H; subst; clear H;
+        cbn [ghost_step] in *; [exfalso; apply Hg'; reflexivity | lia].
+    - destruct (tcp_connect cx s remote_addr remote_port local) as [s1|e|] eqn:Hc; [| |discriminate];
+        inversion H; subst; clear H; cbn [ghost_step] in *; [exfalso; apply Hg'; reflexivity | lia].
+    - inversion H; subst. cbn [ghost_step]. exact (Hv _ (close_view s)).
+    - inversion H; subst. cbn [ghost_step]. exact (Hv _ (proj1 (abort_view s))).
+    - destruct (tcp_send_slice s data) as [(s1, n)|e|] eqn:Hs; [| |discriminate]; inversion H; subst; clear H;
+        cbn [ghost_step]; [|lia]. exact (Hv _ (proj1 (send_slice_frame _ _ _ _ Hs))).
+    - destruct (tcp_recv_slice s n) as [(s1, b)|e|] eqn:Hr; [| |discriminate]; inversion H; subst; clear H;
+        cbn [ghost_step g_consumed]; [|lia].
+      unfold TcpRecvTrace.ginv in Hinv. destruct (g_irs g) as [irs|]; [|congruence].
+      destruct Hinv as (Hsy & _). pose proof Hsy as (Hb & _).
+      unfold tcp_recv_slice in Hr. destruct (tcp_recv_error_check s) as [[]|e|]; cbn [obind] in Hr; try discriminate.
+      destruct (rb_dequeue_slice (s_rx_buffer s) n) as (rx', b') eqn:Hd. inversion Hr; subst. rproj.
+      destruct (dequeue_buf_inv _ _ _ _ _ _ n rx' b Hb Hev Hd) as (_ & _ & Hl' & _). cbv zeta in Hl'. lia.
+    - destruct (tcp_peek s n) as [l|e|]; [| |discriminate]; inversion H; subst; cbn [ghost_step]; lia.
+    - destruct (tcp_peek_slice s n) as [l|e|]; [| |discriminate]; inversion H; subst; cbn [ghost_step]; lia.
+    - inversion H; subst. cbn [ghost_step]. unfold tcp_set_timeout. rproj. lia.
+    - inversion H; subst. cbn [ghost_step]. exact (Hv _ (proj1 (set_keep_alive_frame s d))).
+    - inversion H; subst. cbn [ghost_step]. unfold tcp_set_ack_delay. rproj. lia.
+    - inversion H; subst. cbn [ghost_step]. unfold tcp_set_nagle_enabled. rproj. lia.
+    - apply obind_ok_inv in H. destruct H as (s1 & Hh & H). inversion H; subst; clear H.
+      cbn [ghost_step]. exact (Hv _ (proj1 (set_hop_limit_frame _ _ _ Hh))).
+    - apply obind_ok_inv in H. destruct H as (((s1 & rep) & tg) & Hi & H). inversion H; subst; clear H.
+      destruct Hev as (Hsq & Hseg). cbn [ghost_step] in *.
+      unfold TcpRecvTrace.ginv in Hinv. destruct (g_irs g) as [irs|] eqn:Eg; [|congruence].
+      destruct Hinv as (Hsy & _).
+      destruct (is_state s' Listen) eqn:El; [exfalso; apply Hg'; reflexivity|]. cbn [g_consumed].
+      destruct (ingress_cases cx s ip r s' rep tags Hi) as [(-> & _) | Hp]; [lia|].
+      destruct (process_synced _ _ _ _ _ _ _ _ _ _ _ _ Hsy Hseg Hp) as (_ & _ & _ & _ & Hm).
+      unfold wsq, finz in Hm. exact Hm.
+    - apply obind_ok_inv in H. destruct H as (((s1 & res) & tg) & Hd & H). inversion H; subst; clear H.
+      cbn [ghost_step] in *.
+      destruct (dispatch_spec cx s emit_ok s' res tags Hwf Hsh Hd)
+        as [(Hr & _) | (Hr & (_ & E2 & E3 & _) & _)]; rewrite Hr in *.
+      + exfalso. apply Hg'. reflexivity.
+      + rewrite E2, E3. lia.
   Qed.
 End Theorems.
